@@ -257,6 +257,8 @@ pub enum WriteStep {
     Accept(usize),
     /// Accept half (at least 1).
     Half,
+    /// Accept all but the last byte offered (at least 1).
+    AllButOne,
     /// Return `ErrorKind::Interrupted` once without accepting anything
     /// (retryable noise; `write_all` must absorb it).
     Interrupted,
